@@ -615,6 +615,9 @@ def c10(run):
         for i in range(n):
             f.write(_json.dumps({"seed": rnd.getrandbits(62), "threads": [2, 3, 4, 8, 16][i % 5], "calls": 60,
                                  "nvals": 5 + rnd.randrange(4)}, separators=(",", ":")) + "\n")
+        for i in range(2 + n // 8):     # large sizes: two of the shared values have many members or many vertices
+            f.write(_json.dumps({"seed": rnd.getrandbits(62), "threads": [2, 4, 8][i % 3], "calls": 40,
+                                 "nvals": 4 + rnd.randrange(3), "big": True}, separators=(",", ":")) + "\n")
     joined, evs = _purity_round(run, seedfile, "r1")
     verdicts, nh = run.validate("Trace_Purity", joined, label="two-process histories")
     run.evaluations += sum(len(e["evs"]) for e in evs) * 2
